@@ -13,6 +13,8 @@ META = {
         "rdump_symlink: symlink inodes well-formed for their storage class (fast / slow / inline data), i_size_high 0, target without NUL; "
         "ext2fs_file_open/read/close deliver the true target (one piece, or split at a compile-time position); malloc is a fixed "
         "82-byte buffer with arbitrary content in the solver run (symbolic-size allocation needs > 9 GB), libc's in the replay",
+        "xattrcopy: llistxattr/lgetxattr are models over 3 attributes user.a..user.c (sizes 0..4); ext2fs_xattrs_open/read/close and "
+        "ext2fs_xattr_set are recording stubs; malloc(0) returns a valid pointer. rdump_dirent: debugfs_read_inode and rdump_inode are stubs",
         "host S_IF*/S_I* constants equal the LINUX_S_* values (asserted in file_type for this host), little-endian host",
         "copy_file_chunk: block size 4 bytes, host file <= 12 bytes (fs->blocksize is a run-time field; COPY_FILE_BUFLEN "
         "stays 65536, reached through the read count only)",
@@ -20,11 +22,12 @@ META = {
     "outside": [
         "tree walking beyond one entry (__populate_fs over real scandir order, depth, recursion into non-empty directories), path "
         "handling (path_append cut), the /lost+found special case, libarchive input; hard-link tables beyond 2 records / growth by realloc",
-        "extended attribute transfer (set_inode_xattr)", "symlink targets (do_symlink_internal -> ext2fs_symlink), mkdir",
+        "extended attribute transfer beyond 3 attributes / 4 value bytes, the image-side xattr store (ext2fs_xattr_set etc.: C15), "
+        "the libarchive path's own xattr copy", "symlink targets (do_symlink_internal -> ext2fs_symlink), mkdir",
         "try_fiemap_copy (FIEMAP enumeration), more than 2 data segments in try_lseek_copy, copy_file's fallback order, the i_size set "
         "by do_write_internal; inline-data files",
         "the real ext2fs_file_write / block allocation behind the copy (C09), directory entries (C10)",
-        "rdump_dirent (name copy, inode read) and the recursion over real directories, dump_file's read/write loop, do_rdump/do_dump "
+        "rdump_dirent for names longer than 4 bytes and the recursion over real directories (ext2fs_dir_iterate), dump_file's read/write loop, do_rdump/do_dump "
         "argument handling; symlink targets longer than 80 bytes; ext2fs_file_read itself (inline-data and block-mapped reading: C09)",
         "consistency (e2fsck clean) and byte-for-byte reproducibility of the produced image",
         "nanoseconds (never transferred by set_inode_extra: always zero) and i_crtime of populated files",
@@ -99,6 +102,18 @@ HARNESSES = [
          configs=[{"KERNEL": 2, "NAMEKIND": k} for k in (0, 1, 2, 3)],
          unwind=4, unwindset=["main.%d:129" % i for i in range(8)] + ["strcmp.0:4", "strlen.0:5"],
          backends=["default", "kissat"], bound="every 128-byte inode (all 2^16 i_mode values); entry name 'f', '.', '..' or '' (the dump root)"),
+    dict(name="xattrcopy", src="xattrcopy.c", funcs=["set_inode_xattr"],
+         unwind=6, unwindset=["main.%d:6" % i for i in range(8)] + ["strlen.0:9", "lgetxattr.0:5", "lgetxattr.1:6", "ext2fs_xattr_set.0:5",
+                                                                   "ext2fs_xattr_set.1:6", "llistxattr.0:5", "set_inode_xattr.0:5"],
+         backends=["default", "kissat"],
+         bound="3 host attributes user.a..user.c, value sizes 0..4 and bytes symbolic, lgetxattr may fail for one attribute in the "
+               "size query or the data read, llistxattr normal / ENOTSUP / empty"),
+    dict(name="rdump_dirent", src="rdump.c", funcs=["rdump_dirent"],
+         cut_statics={"debugfs/dump.c": ["rdump_inode"]}, configs=[{"KERNEL": 3}],
+         unwind=4, unwindset=["main.%d:129" % i for i in range(8)] + ["strncpy.0:6", "rdump_inode.0:7", "memset.0:129"],
+         backends=["default", "kissat"], bound="directory entry name of 1..4 symbolic non-NUL bytes, any file type code, inode readable or not"),
+    dict(name="clamptime", src="clamptime.c", funcs=["clamped_time"], unwind=4, backends=["default", "kissat"],
+         bound="every 64-bit t and fs->now, every flags2"),
     dict(name="fix_perms", src="fix_perms.c", funcs=["fix_perms", "mode_xlate"],
          unwind=4, unwindset=["main.0:129", "main.1:129", "main.2:129", "mode_xlate.0:11"],
          backends=["default", "kissat"], bound="every 128-byte inode, descriptor open or not"),
